@@ -479,59 +479,104 @@ def unesc(s):
     return "".join(out)
 
 
-def run_driver(exe, env, schema, types, lines, workdir, tag, crashes, extra=()):
-    """runs the batch driver over `lines`; returns (schema diagnostics, result lines aligned with `lines`).
-    A crash (sanitizer abort, signal) is attributed to the first case without a complete result line; that case gets the pseudo
-    result 'X\t<json log>' and the driver is restarted behind it (--skip)."""
-    inp = os.path.join(workdir, tag + ".in")
-    outp = os.path.join(workdir, tag + ".out")
-    errp = os.path.join(workdir, tag + ".err")
-    with open(inp, "w") as f:
-        f.write("\n".join(lines))
-        f.write("\n")
-    if os.path.exists(outp):
-        os.unlink(outp)
-    skip = 0
-    guard = 0
-    while True:
-        cmd = [exe, "--schema", schema, "--types", types, "--in", inp, "--out", outp, "--skip", str(skip)] + list(extra)
-        with open(errp, "w") as ef:
-            rc = subprocess.call(cmd, env=env, stdout=subprocess.DEVNULL, stderr=ef)
-        data = open(outp).read() if os.path.exists(outp) else ""
-        complete = data.split("\n")
-        complete.pop()          # text after the last newline: empty, or a partial line of a dying process
-        diags = [ln for ln in complete if ln.startswith("S\t")]
-        res = [ln for ln in complete if not ln.startswith("S\t")]
-        if rc == 4:
-            return diags, None
-        if rc == 0 and len(res) == len(lines):
-            break
-        guard += 1
-        log = open(errp).read()[:1500]
-        if rc in (126, 127) or "error while loading shared libraries" in log:
-            # the library flavor is being relinked by a concurrent `xv build` (other checks share build/asan): wait for it, then go on
-            time.sleep(5)
-            build.ensure_lib("asan", quiet=True)
-            skip = len(res)
+class Drv:
+    """persistent batch driver (c09_dtv --serve): the schema is loaded once per worker; every batch is a case file in, a result file out.
+    A crash (sanitizer abort, signal) is attributed to the first case without a complete result line; that case gets the pseudo result
+    'X\t<json log>' and a fresh driver process continues behind it."""
+
+    def __init__(self, exe, env, schema, types, workdir, tag):
+        self.exe, self.env, self.schema, self.types, self.workdir, self.tag = exe, env, schema, types, workdir, tag
+        self.p = None
+        self.diags = []
+        self.failed_schema = False
+        self.start()
+
+    def start(self):
+        diag = os.path.join(self.workdir, self.tag + ".diag")
+        self.errp = os.path.join(self.workdir, self.tag + ".err")
+        for attempt in range(60):
+            if os.path.exists(diag):
+                os.unlink(diag)
+            ef = open(self.errp, "w")
+            self.p = subprocess.Popen([self.exe, "--serve", "--schema", self.schema, "--types", self.types, "--out", diag], env=self.env, stdin=subprocess.PIPE,
+                                      stdout=subprocess.PIPE, stderr=ef, text=True)
+            ef.close()
+            line = self.p.stdout.readline()
+            self.diags = [ln for ln in open(diag).read().split("\n") if ln.startswith("S\t")] if os.path.exists(diag) else []
+            if line.strip() == "READY":
+                return
+            rc = self.p.wait()
+            log = open(self.errp).read()[:1500]
+            if rc == 4:
+                self.failed_schema = True
+                return
+            if rc in (126, 127) or "error while loading shared libraries" in log:
+                # the library flavor is being relinked by a concurrent `xv build` (other checks share build/asan): wait for it
+                time.sleep(5)
+                build.ensure_lib("asan", quiet=True)
+                continue
+            raise RuntimeError("driver does not start (rc=%s): %s" % (rc, log))
+        raise RuntimeError("driver cannot be started")
+
+    def close(self):
+        if self.p and self.p.poll() is None:
+            try:
+                self.p.stdin.close()
+                self.p.wait(timeout=30)
+            except Exception:
+                self.p.kill()
+        for fn in (self.tag + ".diag", self.tag + ".err"):
+            fp = os.path.join(self.workdir, fn)
+            if os.path.exists(fp) and not os.environ.get("XV_KEEP"):
+                os.unlink(fp)
+
+    def run(self, lines, tag, crashes, guards=True):
+        if self.failed_schema:
+            return self.diags, None
+        inp = os.path.join(self.workdir, tag + ".in")
+        outp = os.path.join(self.workdir, tag + ".out")
+        with open(inp, "w") as f:
+            f.write("\n".join(lines))
+            f.write("\n")
+        if os.path.exists(outp):
+            os.unlink(outp)
+        skip = 0
+        guard = 0
+        res = []
+        while True:
+            resp = ""
+            try:
+                self.p.stdin.write("RUN\t%s\t%s\t%d\t%d\n" % (inp, outp, skip, 1 if guards else 0))
+                self.p.stdin.flush()
+                resp = self.p.stdout.readline().strip()
+            except (BrokenPipeError, OSError):
+                resp = ""
+            data = open(outp).read() if os.path.exists(outp) else ""
+            res = data.split("\n")
+            res.pop()           # text after the last newline: empty, or the partial line of a dying process
+            if resp == "DONE" and len(res) == len(lines):
+                break
+            guard += 1
+            rc = self.p.wait() if resp == "" else None
+            log = open(self.errp).read()[:1500]
+            idx = len(res)
+            if resp != "" or idx >= len(lines) or guard > 300:
+                raise RuntimeError("driver failed without a pending case (resp=%r rc=%s, %d/%d results): %s" % (resp, rc, len(res), len(lines), log))
+            if rc in (126, 127) or "error while loading shared libraries" in log:
+                self.start()
+                continue
+            crashes.append((idx, log))
+            res.append("X\t" + json.dumps(log))
             with open(outp, "w") as f:
-                f.write("".join(ln + "\n" for ln in diags + res))
-            if guard > 60:
-                raise RuntimeError("driver cannot be started: " + log)
-            continue
-        idx = len(res)
-        if idx >= len(lines) or guard > 200 or rc == 2:
-            raise RuntimeError("driver failed without a pending case (rc=%s, %d/%d results): %s" % (rc, len(res), len(lines), log))
-        crashes.append((idx, log))
-        res.append("X\t" + json.dumps(log))
-        with open(outp, "w") as f:
-            f.write("".join(ln + "\n" for ln in diags + res))
-        skip = idx + 1
-        if skip >= len(lines):
-            break
-    for p in (inp, outp, errp):
-        if os.path.exists(p) and not os.environ.get("XV_KEEP"):
-            os.unlink(p)
-    return diags, res
+                f.write("".join(ln + "\n" for ln in res))
+            skip = idx + 1
+            self.start()
+            if skip >= len(lines):
+                break
+        for fp in (inp, outp):
+            if os.path.exists(fp) and not os.environ.get("XV_KEEP"):
+                os.unlink(fp)
+        return self.diags, res
 
 
 # ================================================================================================ comparison
@@ -737,7 +782,7 @@ def canon_checks(T, lex, val, c, acc, ctx, who):
         acc.violation(who + "-canon-form", expected="a literal of the canonical subset", observed=c, **ctx)
 
 
-def process_segment(space, exe, env, schema, types, tdefs, Ts, cases, pairs, workdir, tag, acc, pk, pstate):
+def process_segment(space, drv, tdefs, Ts, cases, pairs, tag, acc, pk, pstate):
     """cases: list of (gidx, tid, raw).  pairs: list of (gidx, tid, a, b).  One driver run for V/C/P lines, one for the canonical round trip."""
     lines = []
     meta = []          # per line: ('V', case index) | ('C', pair index) | ('P', [case indexes], scanner)
@@ -786,7 +831,7 @@ def process_segment(space, exe, env, schema, types, tdefs, Ts, cases, pairs, wor
         flush()
     crashes = []
     t_d = time.time()
-    diags, res = run_driver(exe, env, schema, types, lines, workdir, tag, crashes)
+    diags, res = drv.run(lines, tag, crashes)
     acc.count("ms_in_driver", int((time.time() - t_d) * 1000))
     if res is None:
         raise RuntimeError("schema failed to load in worker: %s" % diags[:5])
@@ -984,7 +1029,7 @@ def process_segment(space, exe, env, schema, types, tdefs, Ts, cases, pairs, wor
             uniq.setdefault(ln, []).append(m)
         l2 = list(uniq)
         t_d = time.time()
-        d2, r2 = run_driver(exe, env, schema, types, l2, workdir, tag + "p2", crashes)
+        d2, r2 = drv.run(l2, tag + "p2", crashes)
         acc.count("ms_in_driver", int((time.time() - t_d) * 1000))
         acc.count("driver_lines", len(l2))
         for ln, r in zip(l2, r2):
@@ -1078,6 +1123,7 @@ def worker(w, W, space, tier, exe, env, workdir, pk, out_path):
             f.write("%d\t%s\n" % (i, t["b"] if "b" in t else "-"))
     units, total = units_of(enums, pairs)
     pstate = [0, {}, []]
+    drv = Drv(exe, env, schema, types, workdir, "w%d" % w)
     mine = [u for i, u in enumerate(units) if i % W == w]
     seg = 0
     cases, prs = [], []
@@ -1085,7 +1131,7 @@ def worker(w, W, space, tier, exe, env, workdir, pk, out_path):
     def flush():
         nonlocal seg, cases, prs
         if cases or prs:
-            process_segment(space, exe, env, schema, types, tdefs, Ts, cases, prs, workdir, "w%d_%d" % (w, seg), acc, pk, pstate)
+            process_segment(space, drv, tdefs, Ts, cases, prs, "w%d_%d" % (w, seg), acc, pk, pstate)
             seg += 1
             cases, prs = [], []
     for u in mine:
@@ -1099,6 +1145,7 @@ def worker(w, W, space, tier, exe, env, workdir, pk, out_path):
         if len(cases) + len(prs) >= CHUNK:
             flush()
     flush()
+    drv.close()
     acc.cnt["_wall"] = int(time.time() - t0)
     acc.count("ms_in_worker", int((time.time() - t0) * 1000))
     with open(out_path, "w") as f:
@@ -1207,7 +1254,8 @@ def run_space(run, tier, out_path, env):
     open(sp, "w", encoding="utf-8").write(xsd)
     open(tp, "w").write("".join("%d\t%s\n" % (i, t["b"] if "b" in t else "-") for i, t in enumerate(tdefs)))
     crashes = []
-    diags, res = run_driver(exe, env, sp, tp, ["V\t0\tx"], workdir, "parent", crashes)
+    pdrv = Drv(exe, env, sp, tp, workdir, "parent")
+    diags, res = pdrv.run(["V\t0\tx"], "parent0", crashes)
     for d in diags:
         f = d.split("\t")
         if f[2].startswith("NODV:") and tdefs[int(f[2][5:])].get("b") == "NOTATION":
@@ -1222,10 +1270,11 @@ def run_space(run, tier, out_path, env):
         tids = [i for i, t in enumerate(tdefs) if t.get("b") == tname or (tname == "NMTOKENS-as-list" and t == {"l": {"b": "int"}})]
         if tids and ((space == "lex" and "b" in tdefs[tids[0]]) or (space == "facets" and "l" in tdefs[tids[0]])):
             cr = []
-            _, r1 = run_driver(exe, env, sp, tp, ["V\t%d\t%s" % (tids[0], esc(lexv))], workdir, "canary", cr, extra=["--no-guards"])
+            _, r1 = pdrv.run(["V\t%d\t%s" % (tids[0], esc(lexv))], "canary", cr, guards=False)
             acc.count("known_defect_canaries")
             if cr:
                 acc.violation("crash", known_defect=kd, type=O.tdef_str(tdefs[tids[0]]), tdef=tdefs[tids[0]], raw=lexv, lex=lexv, log=cr[0][1][:1500], space=space)
+    pdrv.close()
     W = max(1, min(W, len(units)))
     procs = []
     for w in range(W):
@@ -1338,7 +1387,9 @@ def replay(body):
         print("recorded:", json.dumps(v)[:1500])
         return 1
     crashes = []
-    diags, res = run_driver(exe, env, sp, tp, lines, workdir, "replay", crashes)
+    rdrv = Drv(exe, env, sp, tp, workdir, "replay")
+    diags, res = rdrv.run(lines, "replay0", crashes, guards=False)
+    rdrv.close()
     for d in diags:
         print("schema   :", d)
     for ln, r in zip(lines, res or []):
